@@ -22,7 +22,7 @@ REQ = ['ceilo', 'dt', 'height', 'type']
 DEFECTS = ['none', 'none', 'notframe', 'empty', 'drop_col', 'dup_row', 'dup_after_coercion', 'zero_nonzero_same',
            'zero_nonzero_other', 'vv_nonvv_same', 'vv_nonvv_other', 'vv_zero_same', 'dtypes', 'extra_cols', 'col_order',
            'index_dup', 'dup_with_extra_col', 'dup_via_str_coercion', 'dup_with_extra_col', 'neg_height', 'type0_height', 'type1_nan', 'type2_alone', 'type3_alone',
-           'glued_key_legal', 'glued_key_legal']
+           'glued_key_legal', 'glued_key_legal', 'same_special_twice_legal', 'same_special_twice_legal']
 
 
 def build(seed, k):
@@ -131,6 +131,15 @@ def build(seed, k):
             new = [(base_name + sep, ta, odd[0], odd[1]), (base_name + sep + d1, tb, 1200.0, 1)]
             if rng.random() < 0.5:
                 new = new[::-1]
+            arg = pd.concat([df, scenes.make_frame(new)], ignore_index=True)
+        elif d == 'same_special_twice_legal' and n:
+            # one ceilometer, one time stamp, two rows of the same special type and nothing else there: two VV hits with
+            # different heights, or two type-0 rows of which one carries a height (warning only) - no documented
+            # rejection condition applies
+            if rng.random() < 0.5:
+                new = [('vv2', 777.0, 300.0, -1), ('vv2', 777.0, 450.0, -1)]
+            else:
+                new = [('nd2', 778.0, float('nan'), 0), ('nd2', 778.0, 800.0, 0)]
             arg = pd.concat([df, scenes.make_frame(new)], ignore_index=True)
         elif d == 'type0_height' and n:
             arg = pd.concat([df, scenes.make_frame([('zz', 12345.0, 800.0, 0)])], ignore_index=True)
